@@ -177,6 +177,14 @@ def _import_file(
         import_request_done(req, "invalid")
         return
 
+    # Nor is anything reached through a symlinked directory: such a path
+    # doesn't resolve to itself under the node root
+    root = pathlib.Path(node.db.root).resolve()
+    if fullpath.resolve() != root.joinpath(path):
+        log.info(f'Not importing "{path}": path contains a symlink.')
+        import_request_done(req, "invalid")
+        return
+
     log.debug(f'Considering "{path}" for import to node {node.name}.')
 
     # Skip files with a leading dot
